@@ -306,9 +306,15 @@ int filter_tee_header (struct filter *chain)
 		lerr (_("error closing output file %s"),
 			env.outfilename != NULL ? env.outfilename : "<stdout>");
 
-	while (wait (0) > 0) ;
+	{
+		int status, rc = 0;
 
-	FLEX_EXIT (0);
+		/* fold the exit statuses of the header branch of the chain */
+		while (wait (&status) > 0)
+			if (!WIFEXITED (status) || WEXITSTATUS (status) != 0)
+				rc = 1;
+		FLEX_EXIT (rc);
+	}
 	return 0;
 }
 
